@@ -497,8 +497,17 @@ pub fn c05(x: &str, toks: &[GTok], out: &str, cfg: &Cfg, ctx: &mut Ctx) {
             }
             j > 0 && matches!(tx[j - 1].text(x).to_ascii_lowercase().as_str(), "class" | "interface" | "dispinterface" | "object" | "record")
         });
+    // a break-forcing comment between the `;` of a routine header and its external / forward directive
+    let comment_before_external = (1..tx.len().saturating_sub(1)).any(|i| {
+        commentish(&tx[i])
+            && tx[i].kind != Kind::Comment(CommentKind::InlineBlock)
+            && tx[i - 1].text(x) == ";"
+            && matches!(tx[i + 1].text(x).to_ascii_lowercase().as_str(), "external" | "forward")
+    });
     let fail = |ctx: &mut Ctx, sig: &str, detail: String, anon_in_header: u8| {
-        let sig = if sig == "declaration-placement" && comment_after_of_object {
+        let sig = if comment_before_external {
+            format!("{sig}:comment-between-routine-header-and-external-or-forward")
+        } else if sig == "declaration-placement" && comment_after_of_object {
             format!("{sig}:break-forcing-comment-after-of-object")
         } else if sig == "declaration-placement" && attribute_after_helper_for {
             format!("{sig}:attribute-directly-after-helper-for-type")
